@@ -50,6 +50,13 @@ Theorem C19_flock_same_inode : forall (grant : option ofd -> ofd -> bool) (poll 
 Proof. exact flock_same_inode. Qed.
 Print Assumptions C19_flock_same_inode.
 
+(* Why release() must not delete the lock file: with an unlink in the schedule (the environment event
+   EUnlink; no client program contains one) two clients hold "the" lock at once, on two inodes. *)
+Theorem C19_flock_unlink_breaks_mutex :
+  let s := frun kernel_grant poll_ms finit unlink_witness in holding s 0%N /\ holding s 1%N.
+Proof. exact flock_mutex_needs_no_unlink. Qed.
+Print Assumptions C19_flock_unlink_breaks_mutex.
+
 (* A holder's death frees the lock, and any waiter then succeeds on its next flock attempt (and is the
    only holder).  `flock_free`: the kernel grants a free inode. *)
 Theorem C19_flock_death : forall (grant : option ofd -> ofd -> bool) (poll : Z), flock_excl grant -> flock_free grant ->
